@@ -261,3 +261,43 @@ pub mod ss {
         })
     }
 }
+
+pub mod vm {
+    use octo_squirrel::codec::aead::CipherKind;
+    use octo_squirrel_client::client::verif as cv;
+    use octo_squirrel_server::server::verif as sv;
+
+    use super::*;
+
+    pub fn client(uuid: &str, cipher: &str, udp: bool, addr: &Address) -> Result<Boxed> {
+        let cfg: ServerConfig<cv::SslConfig> = server_config("vmess", cipher, uuid, &[])?;
+        let codec = if udp { cv::vmess::udp::new_codec(addr, &cfg)? } else { cv::vmess::tcp::new_codec(addr, (cfg.cipher, cfg.password.clone()))? };
+        let _ = CipherKind::Aes128Gcm;
+        Ok(Box::new(Framed::<_, BytesMut>::new(codec)))
+    }
+
+    pub fn server(users: &[(String, String)]) -> Result<Boxed> {
+        let cfg: ServerConfig<sv::SslConfig> = server_config("vmess", "aes-128-gcm", "-", users)?;
+        Ok(Box::new(Framed::<_, OutboundIn>::new(sv::vmess::new_codec(&cfg)?)))
+    }
+}
+
+pub mod tj {
+    use octo_squirrel_client::client::verif as cv;
+    use octo_squirrel_server::server::verif as sv;
+
+    use super::*;
+
+    pub fn client(password: &str, udp: bool, addr: &Address) -> Result<Boxed> {
+        Ok(if udp {
+            Box::new(Framed::<_, DatagramPacket>::new(cv::trojan::udp::ClientCodec::new(password.as_bytes(), 3, addr.clone())))
+        } else {
+            Box::new(Framed::<_, BytesMut>::new(cv::trojan::tcp::new_codec(addr, password.to_owned())?))
+        })
+    }
+
+    pub fn server(password: &str) -> Result<Boxed> {
+        let cfg: ServerConfig<sv::SslConfig> = server_config("trojan", "aes-128-gcm", password, &[])?;
+        Ok(Box::new(Framed::<_, OutboundIn>::new(sv::trojan::new_codec(&cfg)?)))
+    }
+}
